@@ -70,6 +70,7 @@ type LRec struct {
 	Dup   int  // 1+index of a field whose element is emitted twice (xml/json only); 0 = none
 	Short int  // number of trailing fields left out of the row (csv / csv2 single-row records only)
 	Bad   bool // the row is malformed for the old csv reader (bare quote in an unquoted field: a continuable reader error)
+	OtherType bool // json only: the digits field is written as the other JSON type (number <-> string) than the world's records usually are
 	NS    int  // xml only: the record has a child element that declares a namespace of its own (1: as the default namespace, 2: under a further prefix); 0 = none
 }
 
